@@ -23,6 +23,8 @@ def run(ck):
     codec.r9_float_widening_format(ck, P)
     codec.r10_accessor_presence(ck, P)
     codec.r11_yuy2_siblings(ck, P)
+    codec.r18_yuv_clamps_are_signed(ck, P)
+    codec.r19_sizeless_formats_expand_as_argb(ck, P)
     codec.r12_simd_helpers(ck, P)
     image.r_hook_refreshes_unconditionally(ck, P, 'C10-R13')
     status.r19_13_shortcut_needs_plain_destination(ck, P, 'C10-R14')   # accessor equivalence: a raw shortcut bypasses read_func / write_func
